@@ -1,11 +1,181 @@
-/- Driver ops for C11. -/
-import Driver.Loop
+/- Driver ops for C11: the cache machine on the symbolic (free) instance, and the RNG machine.
 
-open Lean Model
+`c11.cache_machine`
+  request  {"effects": {"keys":   {K: {"cached":b, "deps":[[r,K'],…], "drops":[K',…],
+                                        "cwrites":[[r,tag],…], "vwrites":[[r,K',tag],…]}},
+                        "derivs": {D: {"keeps": [K,…]}},          -- "*" in the list = every key
+                        "ctors":  {T: {"writes": [[i,tag],…]}}},
+            "history": [{"op":"construct","kind":T,"root":i,"parents":[…]}
+                       |{"op":"read","obj":o,"key":K}
+                       |{"op":"derive","obj":o,"cls":D,"g":"mul:2"}]}
+  response {"steps":[{"value": V|null, "changed":[o,…], "vchanged":[[o,K],…], "size":n}]}
+  where a contents term is {"root":i,"path":[g,…],"edits":[tag,…]} and a value term V is
+  {"key":K,"at":contents,"deps":[V,…],"edits":[tag,…]}: "the body of K run on an object with these
+  contents, given these dependency values, then edited in place by these writes".
+`c11.rng_machine`
+  request  {"history":[{"op":"reseed","j":n}|{"op":"draw","n":n}|{"op":"simulate","seed":k,"npix":n}]}
+  response {"outputs":[null|[draws…]]}   (concrete 31-bit LCG; the harness compares equality patterns)
+-/
+import Driver.Loop
+import Model.Purity
+
+open Lean Model Model.Purity
 
 namespace Driver.C11
 
-def ops : List (String × Op) := []
+structure SymC where
+  root : Nat
+  path : List String
+  edits : List String
+deriving BEq, Inhabited
+
+inductive SymV where
+  | mk (key : String) (at_ : SymC) (deps : List SymV) (edits : List String)
+deriving Inhabited
+
+partial def SymV.beq : SymV → SymV → Bool
+  | .mk k c ds es, .mk k' c' ds' es' =>
+    k == k' && c == c' && es == es' && ds.length == ds'.length &&
+      (ds.zip ds').all (fun p => SymV.beq p.1 p.2)
+
+instance : BEq SymV := ⟨SymV.beq⟩
+
+def SymV.addEdit (t : String) : SymV → SymV
+  | .mk k c ds es => .mk k c ds (es ++ [t])
+
+def strsToJson (l : List String) : Json := Json.arr (l.map Json.str).toArray
+
+def symCToJson (c : SymC) : Json :=
+  obj [("root", natToJson c.root), ("path", strsToJson c.path), ("edits", strsToJson c.edits)]
+
+partial def symVToJson : SymV → Json
+  | .mk k c ds es =>
+    obj [("key", Json.str k), ("at", symCToJson c), ("deps", Json.arr (ds.map symVToJson).toArray),
+         ("edits", strsToJson es)]
+
+structure KeyEff where
+  cached : Bool := false
+  deps : List (Nat × String) := []
+  drops : List String := []
+  cwrites : List (Nat × String) := []
+  vwrites : List (Nat × String × String) := []
+deriving Inhabited
+
+structure Table where
+  keys : List (String × KeyEff)
+  derivs : List (String × List String)
+  ctors : List (String × List (Nat × String))
+
+def getKeyEff (j : Json) : Except String KeyEff := do
+  let cached ← getBool (fieldD j "cached" (Json.bool false))
+  let deps ← (← getArr (fieldD j "deps" (Json.arr #[]))).mapM fun d => do
+    let a ← getArr d
+    match a with
+    | [r, k] => pure ((← getNat r), (← getStr k))
+    | _ => throw "bad dep"
+  let drops ← getList getStr (fieldD j "drops" (Json.arr #[]))
+  let cw ← (← getArr (fieldD j "cwrites" (Json.arr #[]))).mapM fun d => do
+    match (← getArr d) with
+    | [r, t] => pure ((← getNat r), (← getStr t))
+    | _ => throw "bad cwrite"
+  let vw ← (← getArr (fieldD j "vwrites" (Json.arr #[]))).mapM fun d => do
+    match (← getArr d) with
+    | [r, k, t] => pure ((← getNat r), (← getStr k), (← getStr t))
+    | _ => throw "bad vwrite"
+  pure { cached := cached, deps := deps, drops := drops, cwrites := cw, vwrites := vw }
+
+def objEntries (j : Json) : Except String (List (String × Json)) :=
+  match j with
+  | .obj kvs => pure (kvs.toList.map fun (k, v) => (k, v))
+  | .null => pure []
+  | _ => throw "expected object"
+
+def getTable (j : Json) : Except String Table := do
+  let keys ← (← objEntries (fieldD j "keys" Json.null)).mapM fun (k, v) => do pure (k, (← getKeyEff v))
+  let derivs ← (← objEntries (fieldD j "derivs" Json.null)).mapM fun (k, v) => do
+    pure (k, (← getList getStr (fieldD v "keeps" (Json.arr #[]))))
+  let ctors ← (← objEntries (fieldD j "ctors" Json.null)).mapM fun (k, v) => do
+    let ws ← (← getArr (fieldD v "writes" (Json.arr #[]))).mapM fun d => do
+      match (← getArr d) with
+      | [i, t] => pure ((← getNat i), (← getStr t))
+      | _ => throw "bad ctor write"
+    pure (k, ws)
+  pure { keys := keys, derivs := derivs, ctors := ctors }
+
+/-- the symbolic (free) instance of the effects table: derivations key = (class, concrete g) -/
+def symEffects (t : Table) : Effects String (String × String) String SymC SymV :=
+  let ke (k : String) : KeyEff := (t.keys.lookup k).getD {}
+  { compute := fun k c vs => .mk k c vs []
+    cached := fun k => (ke k).cached
+    deps := fun k => (ke k).deps
+    drops := fun k => (ke k).drops
+    cwrites := fun k => (ke k).cwrites.map fun w => (w.1, fun (c : SymC) => { c with edits := c.edits ++ [w.2] })
+    vwrites := fun k => (ke k).vwrites.map fun w => (w.1, w.2.1, SymV.addEdit w.2.2)
+    apply := fun g c => { c with path := c.path ++ [g.2] }
+    keeps := fun g k => match t.derivs.lookup g.1 with
+      | none => false
+      | some ks => ks.contains "*" || ks.contains k
+    ctorWrites := fun ty => ((t.ctors.lookup ty).getD []).map fun w =>
+      (w.1, fun (c : SymC) => { c with edits := c.edits ++ [w.2] }) }
+
+def getStep (j : Json) : Except String (Impl.Step String (String × String) String SymC) := do
+  let op ← getStr (← field j "op")
+  match op with
+  | "construct" =>
+    let kind ← getStr (← field j "kind")
+    let root ← getNat (← field j "root")
+    let ps ← getNats (fieldD j "parents" (Json.arr #[]))
+    pure (.construct kind { root := root, path := [], edits := [] } ps)
+  | "read" => pure (.read (← getNat (← field j "obj")) (← getStr (← field j "key")))
+  | "derive" =>
+    pure (.derive (← getNat (← field j "obj")) ((← getStr (← field j "cls")), (← getStr (← field j "g"))))
+  | _ => throw "bad step"
+
+/-- objects whose contents differ / cached entries whose value differs between two heaps (objects
+    present in both, keys present in both) -/
+def diffHeaps (a b : Heap String SymC SymV) : List Nat × List (Nat × String) :=
+  let idx := List.range (min a.length b.length)
+  let ch := idx.filter fun i => match a[i]?, b[i]? with
+    | some x, some y => !(x.contents == y.contents)
+    | _, _ => false
+  let vch := idx.flatMap fun i => match a[i]?, b[i]? with
+    | some x, some y => (x.cache.filterMap fun e => match lookupCache y.cache e.1 with
+        | some v => if v == e.2 then none else some (i, e.1)
+        | none => none)
+    | _, _ => []
+  (ch, vch)
+
+def cacheMachine : Op := fun j => do
+  let t ← getTable (← field j "effects")
+  let E := symEffects t
+  let steps ← getList getStep (← field j "history")
+  let fuel := 64
+  let (_, outs) := steps.foldl (fun (acc : Heap String SymC SymV × List Json) s =>
+    let (h, out) := acc
+    let (h1, r) := Impl.step E fuel h s
+    let (ch, vch) := diffHeaps h h1
+    let o := obj [("value", optToJson symVToJson r), ("changed", natsToJson ch),
+                  ("vchanged", listToJson (fun (p : Nat × String) => Json.arr #[natToJson p.1, Json.str p.2]) vch),
+                  ("size", natToJson h1.length)]
+    (h1, out ++ [o])) (([] : Heap String SymC SymV), [])
+  pure (obj [("steps", Json.arr outs.toArray)])
+
+def getRStep (j : Json) : Except String Impl.RStep := do
+  let op ← getStr (← field j "op")
+  match op with
+  | "reseed" => pure (.reseed (← getNat (← field j "j")))
+  | "draw" => pure (.draw (← getNat (← field j "n")))
+  | "simulate" => pure (.simulate (← getInt (← field j "seed")) (← getNat (← field j "npix")))
+  | _ => throw "bad rstep"
+
+def rngMachine : Op := fun j => do
+  let steps ← getList getRStep (← field j "history")
+  let init ← getNat (fieldD j "init" (natToJson 1))
+  let (_, outs) := Impl.rrun lcg (fun xs => xs) steps init
+  pure (obj [("outputs", listToJson (optToJson natsToJson) outs)])
+
+def ops : List (String × Op) :=
+  [("c11.cache_machine", cacheMachine), ("c11.rng_machine", rngMachine)]
 
 end Driver.C11
 
